@@ -1,5 +1,6 @@
 import SlotVerif.Proofs.Snapshot
 import SlotVerif.Proofs.UnionFind
+import SlotVerif.Proofs.EqEquiv
 /-!
 # C08 — No operation sequence panics or leaves the e-graph inconsistent
 
@@ -145,5 +146,45 @@ def chain : Snap :=
 example : ufOK chain = true ∧
     (findW chain ⟨0, [(5, 40), (13, 44)]⟩).map (fun p => (p.1, p.2.uf)) =
       some (⟨2, [(17, 40)]⟩, [⟨2, [(17, 5)]⟩, ⟨2, [(17, 9)]⟩, ⟨2, [(17, 17)]⟩]) := by decide
+
+/-! ### `EGraph::eq` is an equivalence relation (session 6, `Proofs/EqEquiv.lean`) -/
+
+/-- **on every class whose stored generators are permutations of its slots, `eq` is reflexive, symmetric and transitive**
+on the invocations whose canonical form embeds the class slots injectively (every invocation with pairwise distinct
+arguments): the answer is "same argument names and `A ∘ B⁻¹` in the generated subgroup" (`eq_true_iff`, from the
+stabilizer-chain theorem of C10), and the subgroup is closed under identity, inverse and product.  For every state, every
+number of slots, every generator list. -/
+theorem eq_is_equivalence {s : Snap} {c : SClass} (hcls : Snap.cls s c.id = some c)
+    (hv : Grp.Valid c.slots c.gens) :
+    (∀ a A, Snap.find s a = some ⟨c.id, A⟩ → Snap.IsEmb c.slots A → Snap.eq s a a = some true) ∧
+    (∀ a b A B, Snap.find s a = some ⟨c.id, A⟩ → Snap.find s b = some ⟨c.id, B⟩ → Snap.IsEmb c.slots A →
+      Snap.IsEmb c.slots B → Snap.eq s a b = some true → Snap.eq s b a = some true) ∧
+    (∀ a b d A B D, Snap.find s a = some ⟨c.id, A⟩ → Snap.find s b = some ⟨c.id, B⟩ → Snap.find s d = some ⟨c.id, D⟩ →
+      Snap.IsEmb c.slots A → Snap.IsEmb c.slots B → Snap.IsEmb c.slots D →
+      Snap.eq s a b = some true → Snap.eq s b d = some true → Snap.eq s a d = some true) :=
+  ⟨fun _ _ ha hA => Snap.eq_refl hcls hv ha hA,
+   fun _ _ _ _ ha hb hA hB h => Snap.eq_symm hcls hv ha hb hA hB h,
+   fun _ _ _ _ _ _ ha hb hd hA hB hD h1 h2 => Snap.eq_trans hcls hv ha hb hd hA hB hD h1 h2⟩
+
+/-- invocations that canonicalise to different leaders never compare equal -/
+theorem eq_false_of_different_leaders {s : Snap} {a b a' b' : AppId} (ha : Snap.find s a = some a')
+    (hb : Snap.find s b = some b') (hne : a'.id ≠ b'.id) : Snap.eq s a b = some false :=
+  Snap.eq_false_of_leader_ne ha hb hne
+
+/-- non-vacuity: the map `{5 ↦ 40, 9 ↦ 44}` embeds the slot list `[5, 9]` -/
+example : Snap.IsEmb [5, 9] [(5, 40), (9, 44)] where
+  wf := by simp [SlotMap.WF]
+  tot := by intro x hx; simp at hx; rcases hx with rfl | rfl <;> simp [SlotMap.get]
+  dom := by
+    intro x y h
+    have := (SlotMap.get_eq_some_iff (by simp [SlotMap.WF]) x y).mp h
+    simp at this
+    rcases this with ⟨rfl, _⟩ | ⟨rfl, _⟩ <;> simp
+  inj := by
+    intro x x' y h h'
+    have h1 := (SlotMap.get_eq_some_iff (by simp [SlotMap.WF]) x y).mp h
+    have h2 := (SlotMap.get_eq_some_iff (by simp [SlotMap.WF]) x' y).mp h'
+    simp at h1 h2
+    omega
 
 end SV.C08
